@@ -55,6 +55,58 @@ type Term struct {
 	Args []*Term
 	id   int
 	str  string
+	size uint32 // number of nodes of the term printed as a tree (saturating)
+}
+
+// Heavy terms are printed by name (|t!id|) wherever they occur as an operand; whoever sends text to a solver
+// defines them first (Solver.declare, Definitions). Printing the term DAG as a tree is exponential in the
+// nesting depth of operations that use an operand several times (rounding to 53 bits, saturating arithmetic).
+const heavySize = 48
+
+func (t *Term) Heavy() bool { return t.size > heavySize && t.Op != OpConst && t.Op != OpVar }
+
+func (t *Term) setSize() {
+	n := uint32(1)
+	for _, a := range t.Args {
+		if a.Heavy() {
+			n++
+		} else {
+			n += a.size
+		}
+		if n > 1<<20 {
+			n = 1 << 20
+		}
+	}
+	t.size = n
+}
+
+func (t *Term) sortSMT() string {
+	if t.W == 0 {
+		return "Bool"
+	}
+	return fmt.Sprintf("(_ BitVec %d)", t.W)
+}
+
+// DefName is the name under which a heavy term is defined.
+func (t *Term) DefName() string { return fmt.Sprintf("|t!%d|", t.id) }
+
+// Definition is the define-fun command of a heavy term.
+func (t *Term) Definition() string {
+	return "(define-fun " + t.DefName() + " () " + t.sortSMT() + " " + t.Body() + ")"
+}
+
+// Definitions appends, operands first, the definitions of the heavy subterms of t not yet in seen.
+func Definitions(t *Term, seen map[int]bool, out *[]string) {
+	if seen[t.id] {
+		return
+	}
+	seen[t.id] = true
+	for _, a := range t.Args {
+		Definitions(a, seen, out)
+	}
+	if t.Heavy() {
+		*out = append(*out, t.Definition())
+	}
 }
 
 func (t *Term) IsConst() bool { return t.Op == OpConst }
@@ -103,6 +155,7 @@ func (c *Ctx) mk(t *Term) *Term {
 		}
 		c.n++
 		t.id = c.n
+		t.setSize()
 		c.fast[k] = t
 		if t.Op == OpVar {
 			c.Vars = append(c.Vars, t)
@@ -120,6 +173,7 @@ func (c *Ctx) mk(t *Term) *Term {
 	}
 	c.n++
 	t.id = c.n
+	t.setSize()
 	c.tab[k] = t
 	if t.Op == OpVar {
 		c.Vars = append(c.Vars, t)
@@ -472,8 +526,16 @@ func (c *Ctx) Distinct(ts []*Term) *Term {
 	return c.mk(&Term{Op: OpDistinct, W: 0, Args: ts})
 }
 
-// SMT prints the term in SMT-LIB2 syntax (cached).
+// SMT prints the term in SMT-LIB2 syntax as an operand: heavy terms by name.
 func (t *Term) SMT() string {
+	if t.Heavy() {
+		return t.DefName()
+	}
+	return t.Body()
+}
+
+// Body prints the term itself (cached); heavy operands appear by name.
+func (t *Term) Body() string {
 	if t.str != "" {
 		return t.str
 	}
